@@ -9,6 +9,7 @@ import props.C11 as C11
 import props.C09 as C09
 
 COQ_IMPORTS = ['Model.DFA', 'Model.NFA', 'Model.Regexp', 'Model.TM', 'Model.CFG', 'Model.PDA', 'Judge.C02_judge']
+LOG_SAFE = True      # no printed output is read back: the recycling pass runs with GambaTools.enable_logging = True
 RULE = ('objects of the six kinds (generators of C01, C05, C07, C09, C11: exhaustive small DFAs / NFAs / regexp trees, random larger ones, random grammars incl. non-CNF, random PDAs with closure limits '
         '{1,2,5,50,1000}, TMs with step budgets {0,1,5,1000}) x all bounds n in {0,..,4} (n <= 3 for grammars and PDAs). Observed: X_words_up_to_n, generate_language, and the set of all words <= n over the alphabet '
         'that the matching acceptance test accepts. Relation: all three equal the proved-exact model enumeration (PDA: when no closure is truncated; otherwise subset of the language decided with a larger budget). '
@@ -56,6 +57,16 @@ def gen(rng, tier):
     gs += [G.random_cfg(rng, rng.randint(1, 3), 2, rng.randint(1, 5), maxlen=3) for _ in range(40 if quick else 1000)]
     gs += [G.random_cnf(rng, rng.randint(2, 4), 2, rng.randint(2, 7)) for _ in range(60 if quick else 1500)]
     gs += [G.nullable_chain_cfg(rng) for _ in range(25 if quick else 500)]
+    # grammars with 24-28 declared variables (most of them unused): the normalisation inside the enumerator / the acceptance test then
+    # has to invent its fresh variables beyond the 26 letters
+    import string
+    for _ in range(8 if quick else 150):
+        k = rng.randint(23, 27)
+        names = [x for x in string.ascii_uppercase if x != 'S'][:min(k, 25)] + ['S%d' % i for i in range(max(0, k - 25))]
+        rules = [rng.choice(pool) for _ in range(rng.choice([1, 2]))]
+        rules.append(('S', [('T', 'a'), ('V', 'S'), ('T', 'b')]) if rng.random() < 0.5 else ('S', [('T', 'a'), ('T', 'b'), ('T', 'a'), ('V', 'A')]))
+        rules.append(('S', [('T', 'a'), ('T', 'b')]))
+        gs.append(G.mk_cfg(rules, 'S', extra_vars=names))
     for g in gs:
         cases.append({'kind': 'cfg', 'X': g, 'ns': [0, 1, 2, 3]})
     for c in [x for x in C09.gen(rng, tier) if len(x['P']['Q']) <= 10][:(70 if quick else 1500)]:
